@@ -30,6 +30,9 @@ type Options struct {
 	NShards     int
 	Deadline    time.Time
 	MaxFindings int
+	// KnownKeys are finding keys listed as known findings: such a finding is recorded once and does not count
+	// towards MaxFindings, so that a known defect does not end the exploration of the scenario it shows in
+	KnownKeys map[string]bool
 }
 
 // Found is a finding with the schedule that produced it.
@@ -52,10 +55,12 @@ type Stats struct {
 }
 
 type explorer struct {
-	run   RunFunc
-	opt   Options
-	st    *Stats
-	items int64
+	run          RunFunc
+	opt          Options
+	st           *Stats
+	items        int64
+	unknownFound int
+	knownSeen    map[string]bool
 }
 
 // Explore runs the bounded DFS.
@@ -90,7 +95,11 @@ func Explore(run RunFunc, opt Options) *Stats {
 // depth <= 1 are executed by every shard (to enumerate their children) but
 // counted by shard 0 only; each depth-2 subtree belongs to one shard.
 func (e *explorer) explore(prefix []int, depth int, mine bool) {
-	if e.st.HarnessError != "" || len(e.st.Found) >= e.opt.MaxFindings {
+	if e.st.HarnessError != "" {
+		return
+	}
+	if e.unknownFound >= e.opt.MaxFindings {
+		e.st.Complete = false // stopped early: what was not explored is not claimed
 		return
 	}
 	if !e.opt.Deadline.IsZero() && time.Now().After(e.opt.Deadline) {
@@ -118,6 +127,17 @@ func (e *explorer) explore(prefix []int, depth int, mine bool) {
 		}
 		e.st.Outcomes[outcome]++
 		for _, v := range viols {
+			if e.opt.KnownKeys[v.Key] {
+				if e.knownSeen == nil {
+					e.knownSeen = map[string]bool{}
+				}
+				if e.knownSeen[v.Key] {
+					continue
+				}
+				e.knownSeen[v.Key] = true
+			} else {
+				e.unknownFound++
+			}
 			e.st.Found = append(e.st.Found, Found{Finding: v, Choices: choices, Status: res.Status})
 		}
 	}
